@@ -9,6 +9,7 @@ import (
 	"sort"
 	"strings"
 	"sync"
+	"sync/atomic"
 	"testing"
 	"time"
 
@@ -487,8 +488,15 @@ func c18StatusMapDiff(r, f map[string]int) (string, []string) {
 }
 
 type c18Env struct {
-	t   *testing.T
-	run *vlib.Run
+	t        *testing.T
+	run      *vlib.Run
+	diagSeen atomic.Int32 // tombstone diagnostics are counted always, spelled out only a few times
+}
+
+func (e *c18Env) diagNote(format string, a ...any) {
+	if e.diagSeen.Add(1) <= 8 {
+		e.run.Note(format, a...)
+	}
 }
 
 func (e *c18Env) witness(c *c18Case, extra map[string]any) map[string]any {
@@ -727,13 +735,13 @@ func (e *c18Env) compare(c *c18Case, before, R, F *c18Obs, truth map[string]c18T
 			run.Count("tombstones_seen", 1)
 			if vlib.JSON(dr.Leaves) != vlib.JSON(df.Leaves) {
 				run.Count("diag_tombstone_channel_maps_differ", 1)
-				run.Note("diagnostic: tombstone (%s) channel maps differ: resynced=%s fresh=%s", d.Shape, vlib.JSON(dr.Leaves), vlib.JSON(df.Leaves))
+				e.diagNote("diagnostic: tombstone (%s) channel maps differ: resynced=%s fresh=%s", d.Shape, vlib.JSON(dr.Leaves), vlib.JSON(df.Leaves))
 			}
 			if c18MapDiff(dr.Access, df.Access) != "" || c18MapDiff(dr.RoleAccess, df.RoleAccess) != "" {
 				c18GrantNames(dr.Access, df.Access, false, tombNames)
 				c18GrantNames(dr.RoleAccess, df.RoleAccess, true, tombNames)
 				run.Count("diag_tombstone_grants_differ", 1)
-				run.Note("diagnostic: tombstone (%s) grants differ: resynced access=%s role_access=%s fresh access=%s role_access=%s", d.Shape, vlib.JSON(dr.Access), vlib.JSON(dr.RoleAccess), vlib.JSON(df.Access), vlib.JSON(df.RoleAccess))
+				e.diagNote("diagnostic: tombstone (%s) grants differ: resynced access=%s role_access=%s fresh access=%s role_access=%s", d.Shape, vlib.JSON(dr.Access), vlib.JSON(dr.RoleAccess), vlib.JSON(df.Access), vlib.JSON(df.RoleAccess))
 			}
 			continue
 		}
@@ -967,6 +975,7 @@ func TestVerif_C18_Resync(t *testing.T) {
 	run := vlib.Start(t, "C18", "resync")
 	defer run.Finish()
 	e := &c18Env{t: t, run: run}
+	run.Note("writes racing a resync are out of reach in this version: POST /{db}/_resync requires the database to be offline (rest/api.go handlePostResync) and an offline/resyncing database answers document writes with 503 (probed in every case: counter writes_refused_while_offline)")
 	n := run.N(40, 600)
 	var jobs []int
 	for i := range c18FixedCases(c18FixedBase) {
@@ -995,5 +1004,4 @@ func TestVerif_C18_Resync(t *testing.T) {
 	}
 	close(ch)
 	wg.Wait()
-	run.Note("writes racing a resync are out of reach in this version: POST /{db}/_resync requires the database to be offline (rest/api.go handlePostResync) and an offline/resyncing database answers document writes with 503")
 }
